@@ -2,6 +2,7 @@ SPECIFICATION Spec
 CONSTANTS
   Dev <- NoDev
   MaxLen = 4
-  KindSet <- AllKinds
+  KindSet <- BaseKinds
+  Shape = "all"
 INVARIANT NonInterference
 CHECK_DEADLOCK FALSE
